@@ -343,7 +343,12 @@ func (ep *endpoint) state() string {
 	if !s.MessageNil {
 		m = fmt.Sprint(s.MessageLen)
 	}
-	return fmt.Sprintf("%d,%s,%d,%s,%s,%s,%s", s.Cached, m, s.MsgType, b01(s.Compress), b01(s.Expecting), b01(s.Closed), b01(ep.mc.closed))
+	st := fmt.Sprintf("%d,%s,%d,%s,%s,%s,%s", s.Cached, m, s.MsgType, b01(s.Compress), b01(s.Expecting), b01(s.Closed), b01(ep.mc.closed))
+	if len(s.Missing) > 0 {
+		// a state field the model tracks no longer exists in the code: a disagreement, not a build failure
+		st += ";missing-in-code=" + strings.Join(s.Missing, "+")
+	}
+	return st
 }
 
 func (ep *endpoint) finishOp(op string, err error) opRes {
